@@ -64,6 +64,22 @@ def gen_conv(r, tier):
     return sc
 
 
+def gen_conv_nth(r, tier):
+    """Directed: a query under one --nth, then change-nth, then another query — every item has been
+    tokenised for the old field expression when the new one takes effect."""
+    nA = r.choice([150, 250, 450] + ([1200] if tier != 'quick' else []))
+    nth0, nth1 = r.choice([('1', '2'), ('2', '1'), ('2..', '1'), ('1', '2..'), ('-', '2'), ('-1', '1')])
+    sc = dict(A=gen_lines(r, nA), B=gen_lines(r, 20), exact=r.random() < 0.2, sort=r.random() < 0.75, tac=False, nth=nth0,
+              bursts=[(nA, 0)], excludes=0)
+    q1, q2 = r.choice(['f', 'a', 'b', 'o', 'ba', '4']), r.choice(['f', 'fo', 'a', 'b', 'o', 'ba', 'ab', '4', 'al'])
+    steps = [(30, ('change-query', q1)), (r.choice([60, 120, 200]), ('change-nth', nth1)), (r.choice([0, 30, 100]), ('change-query', q2))]
+    if r.random() < 0.5:
+        steps.append((r.choice([30, 100]), ('change-nth', r.choice(['1', '2', '']))))
+        steps.append((r.choice([0, 50]), r.choice([('put', 'o'), ('backward-delete-char', None), ('change-query', q1)])))
+    sc['steps'] = steps
+    return sc
+
+
 def enc_step(s):
     d, (name, arg) = s
     return '%d:%s%s' % (d, name, '' if arg is None else '=' + ('.'.join(str(x) for x in arg.encode()) or 'e'))
@@ -190,7 +206,12 @@ def drv_conv(tier, seed, ctx):
     from vcheck import evaluate
     n = 30 if tier == 'quick' else 500
     r = random.Random(seed * 15485863 + 3)
-    scs = [gen_conv(r, tier) for _ in range(n)]
+    if ctx.get('pid') == 'C05':
+        # matching as a function of (line, query, options) only: the directed field-scope histories
+        n = 10 if tier == 'quick' else 150
+        scs = [gen_conv_nth(r, tier) for _ in range(n)]
+    else:
+        scs = [gen_conv_nth(r, tier) if i < 4 or i % 12 == 0 else gen_conv(r, tier) for i in range(n)]
     notes = []
     with ThreadPoolExecutor(max_workers=8) as ex:
         outs = list(ex.map(lambda sc: _work(ctx, sc), scs))
